@@ -496,8 +496,15 @@ struct Extractor {
 		}
 		if (auto* A = dyn_cast<ArraySubscriptExpr>(E)) {
 			o["k"] = "idx";
-			o["b"] = expr(A->getBase());
-			o["i"] = expr(A->getIdx());
+			// in dependent contexts getBase()/getIdx() cannot tell the operands apart by type: keep the written order a[i]
+			const Expr* B = A->getLHS();
+			const Expr* I = A->getRHS();
+			if (!B->isTypeDependent() && !I->isTypeDependent()) {
+				B = A->getBase();
+				I = A->getIdx();
+			}
+			o["b"] = expr(B);
+			o["i"] = expr(I);
 			o["l"] = line;
 			annotate(o, E);
 			return std::move(o);
